@@ -82,6 +82,7 @@ class Adapter(object):
 
 class ErrorModelAdapter(Adapter):
     cls = 'ReducedErrorModel'
+    evaluate_all_fixed = True
 
     def __init__(self, rng):
         self.cname = sorted(D.ERROR_MODELS)[int(rng.integers(4))]
@@ -117,6 +118,7 @@ class ErrorModelAdapter(Adapter):
 
 class ToyMechAdapter(Adapter):
     cls = 'ReducedMechanisticModel(toy)'
+    evaluate_all_fixed = True
 
     def __init__(self, rng):
         self.n_out = int(rng.integers(1, 3))
@@ -294,6 +296,7 @@ class PopAdapter(Adapter):
 
 class LogLikelihoodAdapter(Adapter):
     cls = 'LogLikelihood'
+    evaluate_all_fixed = True
 
     def __init__(self, rng):
         self.case = GL.LLCase(rng, allow_empty=False)
@@ -335,6 +338,7 @@ class LogLikelihoodAdapter(Adapter):
 
 class PredictiveAdapter(Adapter):
     cls = 'PredictiveModel'
+    evaluate_all_fixed = True
 
     def __init__(self, rng):
         self.n_out = int(rng.integers(1, 3))
@@ -648,8 +652,11 @@ def run_history(ctx, rng, ad, history, tag):
                            'n_parameters': ad.n_parameters(obj),
                            'n_fixed': nf, 'history': hist_desc}, feats)
             return
+        if not np.any(mask) and not getattr(ad, 'evaluate_all_fixed',
+                                            False):
+            continue            # everything fixed: adapter cannot evaluate
         if not np.any(mask):
-            continue            # everything fixed: nothing to evaluate
+            ctx.count('all_fixed_evaluations')
         # evaluation
         xf = ad.point(rng)
         for k, v in net.items():
@@ -717,12 +724,15 @@ def _random_history(rng, ad, full, length):
         for n, v in d.items():
             if n in full:
                 after.discard(n) if v is None else after.add(n)
-        if len(after) >= len(full):
+        if len(after) >= len(full) and not (
+                getattr(ad, 'evaluate_all_fixed', False) and
+                rng.random() < 0.5):
             # drop one newly fixed name so that a parameter stays free
-            drop = sorted(n for n, v in d.items()
-                          if v is not None and n not in fixed)[0]
-            d.pop(drop)
-            after.discard(drop)
+            newly = sorted(n for n, v in d.items()
+                           if v is not None and n not in fixed)
+            if newly:
+                d.pop(newly[0])
+                after.discard(newly[0])
         fixed = after
         hist.append(d)
     return hist
